@@ -159,8 +159,8 @@ static Plan make_plan(vh::Rng& r) {
     p.fail = g_fail_den && r.chance(1, g_fail_den);
     int m = r.below(8);
     if (m < 4) p.sleep_mode = 0;
-    else if (m < 6) p.sleep_mode = 1;
-    else { p.sleep_mode = 2; p.sleep_us = r.pick<uint64_t>({1, 50, 300, 1500, r.range(100, 3000)}); }
+    else if (m < 7) p.sleep_mode = 1;
+    else { p.sleep_mode = 2; p.sleep_us = r.pick<uint64_t>({1, 20, 100, 500, r.range(100, 1500)}); }
     return p;
 }
 
@@ -243,11 +243,12 @@ static void touch(Obj* o, int k, const char* where) {
 
 static void hold(vh::Rng& r, Obj* o, int k) {
     touch(o, k, "after-acquire");
-    switch (r.below(6)) {
-    case 0: case 1: break;
-    case 2: thread_yield(); break;
-    case 3: thread_usleep(r.range(1, 100)); break;
-    default: thread_usleep(r.range(100, 3000));
+    switch (r.below(12)) {
+    case 0: case 1: case 2: case 3: break;
+    case 4: case 5: case 6: thread_yield(); break;
+    case 7: case 8: case 9: thread_usleep(r.range(1, 100)); break;
+    case 10: thread_usleep(r.range(100, 600)); break;
+    default: thread_usleep(r.range(600, 2500));
     }
     touch(o, k, "before-release");
 }
@@ -295,11 +296,11 @@ static void after_recycle(Worker& w, int k, uint32_t id, const RecCtx& c, const 
 }
 
 static void idle(vh::Rng& r) {
-    int m = r.below(16);
-    if (m < 8) return;
-    if (m < 12) { thread_yield(); return; }
-    if (m < 15) { thread_usleep(r.range(1, 300)); return; }
-    thread_usleep(std::min<uint64_t>(g_lifespan * 2 + 100, 30000));      // let things expire
+    int m = r.below(32);
+    if (m < 16) return;
+    if (m < 24) { thread_yield(); return; }
+    if (m < 31) { thread_usleep(r.range(1, 300)); return; }
+    thread_usleep(std::min<uint64_t>(g_lifespan * 2 + 100, 12000));      // let things expire
 }
 
 // ------------------------------------------------------------------------------------------ section: ptr
@@ -524,9 +525,16 @@ int main(int argc, char** argv) {
     g_section = vh::args().gets("section", table[vh::args().exec % 8]);
     int nv = vh::args().geti("vcpus", r.pick({1, 2, 2, 3, 4}));
     int tpv = vh::args().geti("threads", r.range(2, 6));
-    const int nworkers = nv * tpv;
     g_nkeys = vh::args().geti("keys", r.pick({1, 1, 2, 3, 4}));
     g_fail_den = vh::args().geti("fail_den", r.pick({0, 12, 4}));
+    if (vh::is_tsan()) {
+        // TSan stops at its first report. Two data races are known (known_findings.json): the unlocked `_obj` read after a
+        // failed construction in ObjectCacheBase::ref_acquire, and Box::timestamp in ObjectCacheV2. They are confined to
+        // dedicated executions so that the other TSan executions still run to their end.
+        if (g_section != "v2" && !vh::args().has("fail_den")) g_fail_den = vh::args().exec % 8 == 5 ? 4 : 0;
+        if (g_section == "v2" && vh::args().exec % 8 == 7 && !vh::args().has("vcpus")) { nv = 1; tpv = std::max(tpv, 4); }
+    }
+    const int nworkers = nv * tpv;
     g_cooldown = vh::args().geti("cooldown_us", r.pick<uint64_t>({0, 2000, 20000}));
     bool long_life = r.chance(1, 8);
     g_lifespan = vh::args().geti("lifespan_us", long_life ? 3000000 : r.pick<uint64_t>({1000, 2000, 5000, 10000, 20000}));
@@ -534,9 +542,15 @@ int main(int argc, char** argv) {
     bool limited = !long_life && r.chance(1, 6);
     if (limited) g_num_limit = r.range(1, std::max(1, g_nkeys - 1));
     g_lifespan_oracle = g_lifespan >= 2 * SLACK_US && !limited && g_section != "v2";
-    g_ops = vh::args().geti("ops", vh::args().thorough() ? 4000 : 800);
+    g_ops = vh::args().geti("ops", vh::args().thorough() ? 1500 : 250);
     if (g_section == "v2") {
-        g_v2_mode = vh::args().geti("v2_mode", (int)((vh::args().exec / 8 + vh::args().exec) % 3));
+        {
+            bool even = (vh::args().exec / 8) % 2 == 0;
+            int def = vh::args().exec % 8 == 6 ? (even ? 0 : 2) : (even ? 2 : 1);
+            // mode 2 provokes the known use-after-free of the Box in ~Borrow: only ASan turns that into a clean report
+            if (def == 2 && !vh::is_asan()) def = 1;
+            g_v2_mode = vh::args().geti("v2_mode", def);
+        }
         g_share_oracle = g_v2_mode == 0;            // recycle()/update() substitute the object while old borrowers keep theirs (by design)
         if (g_v2_mode == 2) { g_nkeys = 48; g_long_den = r.pick({8u, 16u, 32u}); g_lifespan = r.pick<uint64_t>({0, 100, 1000}); }
         g_ops *= 2;                                 // the reclaimer of this class runs once per second
@@ -609,8 +623,8 @@ int main(int argc, char** argv) {
     });
 
     uint64_t expired = vh::cov(C_OBJCACHE_EXPIRE), parked = vh::cov(C_OBJCACHE_RECYCLE_WAIT);
-    bool nontrivial = c_shared.get() > 0 && c_dtor.get() > 0 && nworkers >= 2 &&
-                      (g_section == "v2" ? true : (c_rel_recycle.get() + c_rel_moveout.get() > 0));
+    bool nontrivial = c_dtor.get() > 0 && nworkers >= 2 &&
+                      (g_section == "v2" ? c_acq_ok.get() > 0 : (c_shared.get() > 0 && c_rel_recycle.get() + c_rel_moveout.get() > 0));
     vh::set_sig(g_section + (g_section == "v2" ? "m" + std::to_string(g_v2_mode) : "") + "|v" + std::to_string(nv) + "|t" + std::to_string(tpv) +
                     "|k" + std::to_string(g_nkeys) + "|f" + std::to_string(g_fail_den) + "|cd" + std::to_string(g_cooldown) + "|ls" + std::to_string(g_lifespan) +
                     (limited ? "|lim" : "") + "|" + vh::cov_signature({C_OBJCACHE_EXPIRE, C_OBJCACHE_RECYCLE_WAIT, C_OBJCACHE_CTOR_FAIL}) +
